@@ -22,6 +22,8 @@ var c08Steps = []hv.Step{
 	{Op: "W", N: 0}, {Op: "W", N: 1}, {Op: "W", N: 3},
 	{Op: "Set", K: "X-A", V: "1"}, {Op: "Set", K: "Content-Type", V: "text/x"}, {Op: "Del", K: "X-A"},
 	{Op: "Set", K: "X-B", V: "2"},
+	{Op: "WH", N: 103},            // an informational response: status and headers of the final one are still open
+	{Op: "Mut", K: "X-B", V: "9"}, // the value slice of a header edited in place
 }
 
 // headTrialRecovered: the GET handler program panics somewhere and a recovery option answers; HEAD must still
@@ -118,6 +120,9 @@ func headTrialOn(prog []hv.Step, viaGroup bool) (class, obs, exp string, outcome
 	if h.Status != g.Status {
 		return "head-status-differs", fmt.Sprintf("HEAD %d", h.Status), fmt.Sprintf("GET %d", g.Status), outcome
 	}
+	if gi, hi := strings.Join(g.Info, " / "), strings.Join(h.Info, " / "); gi != hi {
+		return "head-informational-differs", "HEAD sent informational responses: " + hi, "as GET: " + gi, outcome
+	}
 	if len(h.Body) != 0 {
 		return "head-body-leaks", fmt.Sprintf("HEAD delivered %d body bytes", len(h.Body)), "0 body bytes", outcome
 	}
@@ -130,7 +135,7 @@ func headTrialOn(prog []hv.Step, viaGroup bool) (class, obs, exp string, outcome
 			if (s.Op == "Set" || s.Op == "Del") && sent {
 				class = "head-headers-differ:set-after-write"
 			}
-			if s.Op == "W" || s.Op == "WH" {
+			if s.Op == "W" || s.Op == "WH" && s.N >= 200 {
 				sent = true
 			}
 		}
@@ -138,7 +143,7 @@ func headTrialOn(prog []hv.Step, viaGroup bool) (class, obs, exp string, outcome
 	}
 	explicit, total, writes := false, 0, 0
 	for _, s := range prog {
-		if s.Op == "WH" {
+		if s.Op == "WH" && s.N >= 200 {
 			explicit = true
 		}
 		if s.Op == "W" {
